@@ -246,6 +246,46 @@ Section S.
     apply in_map_iff in I. destruct I as [v [<- _]]. apply (B v). reflexivity.
   Qed.
 
+  (* ------------------------------------------------------------ order independence without side conditions *)
+  Lemma ok_values_ok : forall specs kvs, is_ok (visit V specs kvs) = true -> values_ok V specs kvs.
+  Proof.
+    intros specs kvs H i r I. unfold visit in H.
+    destruct (visit_loop V specs (init V specs) kvs) as [st'| | | |] eqn:L; cbn [obind is_ok] in H; try discriminate.
+    destruct (loop_ok_slot V specs kvs _ _ L i) as [_ E]. rewrite E in I.
+    apply in_map_iff in I. destruct I as [v [<- _]]. eauto.
+  Qed.
+
+  Theorem order_independent_total : forall specs kvs kvs',
+    (forall i, occ V specs i kvs = occ V specs i kvs') ->
+    is_ok (visit V specs kvs) = is_ok (visit V specs kvs') /\
+    (is_ok (visit V specs kvs) = true -> visit V specs kvs = visit V specs kvs').
+  Proof.
+    intros specs kvs kvs' E.
+    assert (A : forall a b, (forall i, occ V specs i a = occ V specs i b) ->
+                is_ok (visit V specs a) = true -> visit V specs a = visit V specs b).
+    { intros a b Eab H. apply perm_invariant; [apply ok_values_ok; exact H|exact Eab]. }
+    split; [|apply A; exact E].
+    destruct (is_ok (visit V specs kvs)) eqn:H1.
+    - rewrite <- (A kvs kvs' E H1). symmetry. exact H1.
+    - destruct (is_ok (visit V specs kvs')) eqn:H2; [|reflexivity].
+      assert (E' : forall i, occ V specs i kvs' = occ V specs i kvs) by (intros i; symmetry; apply E).
+      rewrite <- (A kvs' kvs E' H2) in H1. congruence.
+  Qed.
+
+  Lemma reorder_occ : forall specs a b, reorder V specs a b -> forall i, occ V specs i a = occ V specs i b.
+  Proof.
+    intros specs a b R. induction R as [l|l1 k1 r1 k2 r2 l2 H|a b c _ IH1 _ IH2]; intros i.
+    - reflexivity.
+    - apply occ_swap. exact H.
+    - rewrite IH1. apply IH2.
+  Qed.
+
+  Theorem reorder_invariant : forall specs kvs kvs',
+    reorder V specs kvs kvs' ->
+    is_ok (visit V specs kvs) = is_ok (visit V specs kvs') /\
+    (is_ok (visit V specs kvs) = true -> visit V specs kvs = visit V specs kvs').
+  Proof. intros specs kvs kvs' R. apply order_independent_total. apply reorder_occ. exact R. Qed.
+
   (* ------------------------------------------------------------ the attribute table *)
   Notation attrs := (field_attrs V).
 
@@ -310,4 +350,13 @@ Lemma option_ignores_default_fn : exists (a : field_attrs N),
 Proof.
   exists (mk_attrs [111%N] [] [] false false true DefPath 0%N 7%N). split; [reflexivity|].
   cbn. intros H. discriminate H.
+Qed.
+
+(* the order among the occurrences of ONE take_last field matters (by definition of take_last): the
+   last sentence of the statement holds for rearrangements that keep each field's own sequence *)
+Lemma take_last_own_order_matters : exists (specs : list (field_spec N)) kvs kvs',
+  Permutation.Permutation kvs kvs' /\ is_ok (visit N specs kvs) = true /\ visit N specs kvs <> visit N specs kvs'.
+Proof.
+  exists [mk_field [99%N] None TakeLast Required], [(KStr [99%N], Ok 1%N); (KStr [99%N], Ok 2%N)], [(KStr [99%N], Ok 2%N); (KStr [99%N], Ok 1%N)].
+  split; [apply Permutation.perm_swap|]. split; [reflexivity|]. vm_compute. intros H. discriminate H.
 Qed.
